@@ -301,6 +301,7 @@ package jobs
 
 //@ assumed (*server.DsManager).GetDataset
 //@   pure
+//@   ensures result != nil ==> result.ID == id
 //@ assumed (*server.DsManager).IsDataset
 //@   pure
 //@ assumed (server.EventBus).Emit
@@ -418,3 +419,24 @@ package jobs
 //@     ghost checkedG := checkedG + 1
 //@   loop 2
 //@     invariant -1 <= $i && $i < len(jobConfiguration.Triggers) && checkedG == $i + 1
+
+// ---------------------------------------------------------------------------
+// C08 / C04: the dataset sink hands the whole batch to the named dataset's StoreEntities and reports exactly that call's
+// outcome: a failed store is never reported as success (the pipelines store the continuation token only after the sink
+// returned nil)
+//@ unit (*datasetSink).processEntities
+//@   prop C08 C04
+//@   ghost storedG bool = false
+//@   ghost storeErrG iface
+//@   requires datasetSink != nil && datasetSink.DatasetManager != nil && runner != nil
+//@   requires [callers-hold-no-lock] forall l int :: has($held, l) ==> lockLevel(l) < 1
+//@   ensures [C08,C04:the-sink-reports-the-outcome-of-the-store] storedG ==> result == storeErrG
+//@   ensures [C08:success-means-the-batch-was-stored] result == nil ==> storedG
+//@   at call GetDataset#1
+//@     assume $result != nil && $result.store != nil && !has($held, addrOf($result.WriteLock)) && ($result.fullSyncStarted ==> $result.fullSyncSeen != nil)
+//@   at call StoreEntities#1 before
+//@     assert [C08:the-whole-batch-goes-to-the-sink-dataset] $arg1 == entities && ds.ID == datasetSink.DatasetName
+//@     assume forall i int :: 0 <= i && i < len(entities) ==> entities[i] != nil
+//@   at call StoreEntities#1
+//@     ghost storedG := true
+//@     ghost storeErrG := $result
